@@ -61,6 +61,10 @@ def generate(seed, tier):
             ops.append({'op': 'fail_next_flush', 'at': rng.randrange(6)})
         if not faulty and rng.random() < 0.15:
             ops.append({'op': 'race_buffer_during_flush', 'pick': rng.randrange(1000)})
+        if not faulty and rng.random() < 0.12:
+            ops.append({'op': 'discard_buffer'})
+            left += k          # they are handed over again
+            continue
         x = rng.random()
         if x < 0.75:
             ops.append({'op': 'flush'})
@@ -73,7 +77,8 @@ def generate(seed, tier):
         if rng.random() < 0.15:
             ops.append({'op': 'rebuild'})
     ops += [{'op': 'flush'}, {'op': 'close_reopen'}, {'op': 'read_all'}, {'op': 'rebuild'}]
-    return {'config': {'base': 'hlow', 'nopow': True, 'share': share, 'faulty': faulty, 'build': ops_build}, 'ops': ops}
+    return {'config': {'base': 'hlow', 'nopow': True, 'share': share, 'faulty': faulty, 'build': ops_build,
+                       'via_di': rng.random() < 0.5}, 'ops': ops}
 
 
 class _FailingCursor:
@@ -243,17 +248,49 @@ def execute(script):
         had_fault = False
         res.bump('relaxed_resyncs')
 
+    # the node reaches the store through its DiskInterface (save_block / flush_blocks): half of the runs take that route
+    from skepticoin.networking.disk_interface import DiskInterface
+    di = DiskInterface()
+    via_di = bool(cfg.get('via_di'))
+    if via_di:
+        res.bump('probe:store_reached_through_disk_interface')
+
+    def hand(blk):
+        if via_di:
+            bs.DefaultBlockStore.instance = store
+            di.save_block(blk)
+        else:
+            store.add_block_to_buffer(blk)
+
+    def flush_store():
+        if via_di:
+            bs.DefaultBlockStore.instance = store
+            di.flush_blocks()
+        else:
+            store.flush_blocks_to_disk()
+
     try:
         for op in script['ops']:
             kind = op['op']
             res.events += 1
-            if kind == 'buffer_next':
+            if kind == 'discard_buffer':
+                # what the networking layer does when it rejects a validated block: everything still buffered is thrown
+                # away (the blocks are no longer accepted; they may be accepted and handed over again later)
+                if wedged or had_fault or not buffered:
+                    continue
+                store.write_buffer.clear()
+                for b in buffered:
+                    if b not in flushed:
+                        handed.discard(b)
+                buffered = []
+                res.bump('probe:buffer_discarded_then_blocks_handed_over_again')
+            elif kind == 'buffer_next':
                 todo = [b for b in tree if b not in handed]
                 ready = [b for b in todo if chain.blocks[b].parent.id in handed or chain.blocks[b].parent.id == genesis_id]
                 if not ready:
                     continue
                 b = ready[op.get('pick', 0) % len(ready)]
-                store.add_block_to_buffer(objs[b])
+                hand(objs[b])
                 buffered.append(b)
                 handed.add(b)
                 trace.add('buffer', b)
@@ -262,7 +299,7 @@ def execute(script):
                     continue
                 hs = sorted(handed)
                 b = hs[op.get('n', 0) % len(hs)]
-                store.add_block_to_buffer(objs[b])
+                hand(objs[b])
                 buffered.append(b)
                 res.bump('probe:block_buffered_twice')
             elif kind == 'race_buffer_during_flush':
@@ -282,7 +319,7 @@ def execute(script):
                     if st['done']:
                         return
                     st['done'] = True
-                    store.add_block_to_buffer(objs[nb])
+                    hand(objs[nb])
 
                 def seam(blocks):
                     r = orig_w(blocks)
@@ -292,7 +329,7 @@ def execute(script):
                     return r
                 store.write_blocks_to_disk = seam
                 try:
-                    store.flush_blocks_to_disk()
+                    flush_store()
                 except sqlite3.Error as e:
                     res.violate(PROP, 'C08/flush-raised', 'flush raised %s: %s' % (type(e).__name__, e))
                     break
@@ -320,7 +357,7 @@ def execute(script):
                     fail_at = None
                 flush_err = None
                 try:
-                    store.flush_blocks_to_disk()
+                    flush_store()
                     ok = True
                 except sqlite3.Error as e:
                     ok = False
@@ -357,7 +394,7 @@ def execute(script):
                     res.bump('fault:restart_without_flush')
                 if kind == 'close_reopen' and not wedged and not had_fault:
                     try:
-                        store.flush_blocks_to_disk()
+                        flush_store()
                     except sqlite3.Error as e:
                         res.violate(PROP, 'C08/flush-raised', 'flushing accepted blocks (parents first) raised %s: %s' % (type(e).__name__, e))
                         break
